@@ -809,3 +809,22 @@ Proof.
     + intros (u & -> & H). apply L_eps_inv in H as ->. reflexivity.
     + intros ->. exists []. split; [reflexivity|constructor].
 Qed.
+
+Theorem conc_dispatch : forall c0 sched d, c_log c0 = [] ->
+  In d (c_log (run_conc c0 sched)) ->
+  (exists s1 s2, sched = s1 ++ s2 /\ d_routes d = st_routes (c_st (run_conc c0 s1))) /\
+  match d_sel d with
+  | Some r => In r (map snd (d_routes d)) /\ path_match r (d_path d) = true /\
+              (Permutation (visit (d_order d) (d_routes d)) (map snd (d_routes d)) ->
+               maximal_match (map snd (d_routes d)) (d_path d) r)
+  | None => Permutation (visit (d_order d) (d_routes d)) (map snd (d_routes d)) ->
+            forall r, In r (map snd (d_routes d)) -> path_match r (d_path d) = false
+  end.
+Proof.
+  intros c0 sched d H0 Hin. destruct (run_conc_log c0 H0 sched d Hin) as [Hs Hex].
+  split; [exact Hex|]. rewrite Hs.
+  destruct (scan (visit (d_order d) (d_routes d)) (d_path d) None O) as [r|] eqn:E.
+  - pose proof (scan_some _ _ _ E) as (Hi & Hm & Hmax). split; [now apply visit_in in Hi|]. split; [exact Hm|].
+    intros Hp. apply scan_exact. eauto.
+  - intros Hp r Hi. eapply scan_none; [exact E|]. eapply Permutation_in; [symmetry|]; eauto.
+Qed.
